@@ -8,6 +8,9 @@ COMMON_ASSUMPTIONS = [
 def H(name, src, threads=(), K=0, setup='h_setup', final='h_final', tier='quick', **kw):
     d = dict(name=name, src=src, threads=list(threads), K=K, setup=setup, final=final, tier=tier); d.update(kw); return d
 PROPS = {}
+def SEQ(name, src, fn, **kw):
+    kw.setdefault('opts', {}); kw['opts'].setdefault('feas', 1); kw['opts'].setdefault('max_rec', 6); kw['opts'].setdefault('feas_at', 12); kw['opts'].setdefault('max_visits', 400)
+    return H(name, src, [], 0, setup=fn, final=None, **kw)
 PROPS['C03'] = dict(level='model_checking',
   bounds='T<=2 engine threads per harness, K steps as listed per harness (bound query reports sufficiency), spin loops modelled as blocking waits',
   outside='more than 2 concurrent participants (quick), weak memory orderings',
@@ -24,6 +27,7 @@ PROPS['C15'] = dict(level='model_checking',
   harnesses=[
     H('v1_two_lockers', 'C15_mutex_v1.cpp', ['h_lock0', 'h_lock1'], 24, final='h_final2', desc='two async_lock contending'),
     H('v1_locker_vs_try', 'C15_mutex_v1.cpp', ['h_lock0', 'h_try'], 22, final='h_final1', desc='async_lock vs try_lock/unlock'),
+    ] + [SEQ('v2_plan_%02d' % p, 'C15_mutex_v2.cpp', 'h_mutex_v2', opts=dict(params=[p], max_rec=4), desc='v2 cancellable mutex: holder + one waiter on a queueing scheduler, event plan %d (base-3: 0 unlock, 1 stop, 2 run scheduler)' % p) for p in range(27)] + [
     H('v1_two_lockers_try', 'C15_mutex_v1.cpp', ['h_lock0', 'h_lock1', 'h_try'], 30, final='h_final2', tier='thorough', timeout=3000, desc='two async_lock + one try_lock/unlock'),
   ])
 
@@ -50,9 +54,6 @@ PROPS['C19'] = dict(level='model_checking',
     H('canary_vs_watcher', 'C19_canary.cpp', ['h_watcher_side', 'h_canary_side'], 30, desc='canary destruction racing watcher guard/destruction; both objects freed right after their destructors'),
   ])
 
-def SEQ(name, src, fn, **kw):
-    kw.setdefault('opts', {}); kw['opts'].setdefault('feas', 1); kw['opts'].setdefault('max_rec', 6); kw['opts'].setdefault('feas_at', 12); kw['opts'].setdefault('max_visits', 400)
-    return H(name, src, [], 0, setup=fn, final=None, **kw)
 PROPS['C05'] = dict(level='model_checking',
   bounds='sequential (T=1) execution of each listed expression shape; leaf outcomes (value/error/done) and 8-bit payloads symbolic; depth<=2, <=3 children',
   outside='expression shapes not in the catalogue; concurrent completion orders (see C01/C04 harnesses)',
